@@ -54,6 +54,27 @@ def Hygienic (g : G) : Prop :=
 
 instance (g : G) : Decidable (Hygienic g) := by unfold Hygienic; infer_instance
 
+/-! ## `L(G) ≠ ∅`, decidably -/
+
+def bodyProductive (pr : List String) (b : List SSym) : Bool :=
+  b.all fun s => match s with
+    | .nonterm n => decide (n ∈ pr)
+    | .term _ => true
+
+/-- one pass of "add every head that has a body of terminals and productive non-terminals" -/
+def productivePass (ps : List SProd) (pr : List String) : List String :=
+  ps.foldl (fun pr p => if p.head ∈ pr then pr else if bodyProductive pr p.body then pr ++ [p.head] else pr) pr
+
+/-- the productive non-terminals (least fixpoint; the fuel always suffices, `productive_total`) -/
+def productive (g : G) : Option (List String) := iterFix (productivePass g.prods) (g.prods.length + 2) []
+
+/-- the start symbol derives some terminal string; `nonEmptyB g = true ↔ ∃ w, Language g w`
+(`Proofs/C08Productive.lean`) -/
+def nonEmptyB (g : G) : Bool :=
+  match productive g with
+  | some pr => decide (g.start ∈ pr)
+  | none => false
+
 /-- the two grammars generate the same set of terminal strings -/
 def SameLanguage (g g' : G) : Prop := ∀ w : List String, Language g' w ↔ Language g w
 
